@@ -22,7 +22,7 @@ PROPS = {
         "title": "Reads reflect exactly the accepted writes",
         "modules": ["Props.C01"],
         "quick": {"profiles": [("crud", 8, 40)]},
-        "thorough": {"profiles": [("crud", 16, 600)]},
+        "thorough": {"profiles": [("crud", 16, 2400)]},
         "target": has(("del ", "sdel ", "delall", "reopen")),
         "design_ref": "5/C01",
     },
@@ -30,7 +30,7 @@ PROPS = {
         "title": "Search returns exactly the matching objects",
         "modules": ["Props.C02"],
         "quick": {"profiles": [("search", 8, 20)]},
-        "thorough": {"profiles": [("search", 16, 250)]},
+        "thorough": {"profiles": [("search", 16, 1000)]},
         "target": has(("and ", "or ", "collect ")),
         "design_ref": "5/C02",
     },
@@ -38,7 +38,7 @@ PROPS = {
         "title": "Uniqueness never violated, never over-enforced",
         "modules": ["Props.C03"],
         "quick": {"profiles": [("unique", 8, 40)]},
-        "thorough": {"profiles": [("unique", 16, 600)]},
+        "thorough": {"profiles": [("unique", 16, 2400)]},
         "target": has_result("E:unique"),
         "design_ref": "5/C03",
     },
@@ -46,7 +46,7 @@ PROPS = {
         "title": "Close/reopen preserves objects, indexes, constraints",
         "modules": ["Props.C04"],
         "quick": {"profiles": [("reopen", 8, 15)]},
-        "thorough": {"profiles": [("reopen", 16, 200)]},
+        "thorough": {"profiles": [("reopen", 16, 800)]},
         "target": has(("reopen",)),
         "design_ref": "5/C04",
     },
@@ -64,7 +64,7 @@ PROPS = {
         "title": "A rejected or failed write leaves no trace",
         "modules": ["Props.C06"],
         "quick": {"profiles": [("reject", 8, 30)], "special": ["storage_faults"]},
-        "thorough": {"profiles": [("reject", 16, 400)], "special": ["storage_faults"]},
+        "thorough": {"profiles": [("reject", 16, 1600)], "special": ["storage_faults"]},
         "target": has_result("=> E:"),
         "design_ref": "5/C06",
     },
@@ -72,7 +72,7 @@ PROPS = {
         "title": "Batch insertion is all-or-nothing",
         "modules": ["Props.C07"],
         "quick": {"profiles": [("batch", 8, 30)]},
-        "thorough": {"profiles": [("batch", 16, 400)]},
+        "thorough": {"profiles": [("batch", 16, 1600)]},
         "target": has(("many ", "bulk ")),
         "design_ref": "5/C07",
     },
@@ -83,7 +83,7 @@ PROPS = {
         "thorough": {"special": ["conc_races", "conc_linearizable"]},
         "rule": "lock/access facts regenerated from the source and re-proved; race detector on first-access and mixed-load scenarios; "
                 "concurrent histories (2-3 goroutines x 2-3 calls) with every real-time-respecting order replayed on the model; distinct by call lines",
-        "level_note": "proof of the lock protocol (every schedule) + regenerated facts; Go's memory model and scheduler are not modelled: "
+        "level_note": "proof of the lock protocol (every schedule), of linearizability of one-critical-section calls (every interleaving of their micro-steps), + regenerated facts (accesses covered, one section per entry); Go's memory model and scheduler are not modelled: "
                       "the race detector and the linearizability search are supporting evidence on sampled schedules",
         "design_ref": "5/C08",
     },
@@ -102,7 +102,7 @@ PROPS = {
         "title": "Async writes: visible at once, flushed by threshold/timeout, complete at Close",
         "modules": ["Props.C10"],
         "quick": {"profiles": [("async", 16, 3)]},
-        "thorough": {"profiles": [("async", 16, 40)]},
+        "thorough": {"profiles": [("async", 16, 80)]},
         "target": has(("tick ", "flushall", "close")),
         "level_note": "proof of the flusher state machine over every interleaving of polls and calls; wall-clock behaviour "
                       "(sleep granularity, scheduler latency) is observed in real time by the `async` profile, not proved",
@@ -112,7 +112,7 @@ PROPS = {
         "title": "Observable behaviour does not depend on storage configuration or indexing",
         "modules": ["Props.C12"],
         "quick": {"profiles": [("args", 8, 30)], "special": ["config_pairs"]},
-        "thorough": {"profiles": [("args", 16, 300)], "special": ["config_pairs"]},
+        "thorough": {"profiles": [("args", 16, 1200)], "special": ["config_pairs"]},
         "target": has(("search ", "exist ")),
         "design_ref": "5/C12",
     },
@@ -120,7 +120,7 @@ PROPS = {
         "title": "Control detects every divergence, Repair restores agreement",
         "modules": ["Props.C11"],
         "quick": {"profiles": [("fault", 8, 25)]},
-        "thorough": {"profiles": [("fault", 16, 300)]},
+        "thorough": {"profiles": [("fault", 16, 1200)]},
         "target": has(("rmfile", "addfile", "dropentry", "rmschema")),
         "design_ref": "5/C11",
     },
@@ -128,7 +128,7 @@ PROPS = {
         "title": "Result order, Reverse, Limit, One, AssignIndex",
         "modules": ["Props.C13"],
         "quick": {"profiles": [("order", 8, 40)]},
-        "thorough": {"profiles": [("order", 16, 500)]},
+        "thorough": {"profiles": [("order", 16, 2000)]},
         "target": has(("collect ", "one ", "aidx ")),
         "design_ref": "5/C13",
     },
@@ -146,7 +146,7 @@ PROPS = {
         "title": "Validate and Transform gate every insertion path",
         "modules": ["Props.C15"],
         "quick": {"profiles": [("hooks", 8, 30)]},
-        "thorough": {"profiles": [("hooks", 16, 400)]},
+        "thorough": {"profiles": [("hooks", 16, 1600)]},
         "target": has_result("E:invalid"),
         "design_ref": "5/C15",
     },
@@ -154,7 +154,7 @@ PROPS = {
         "title": "upper/lower canonicalisation",
         "modules": ["Props.C16"],
         "quick": {"profiles": [("case", 8, 25)], "special": ["case_tables"]},
-        "thorough": {"profiles": [("case", 16, 300)], "special": ["case_tables"]},
+        "thorough": {"profiles": [("case", 16, 1200)], "special": ["case_tables"]},
         "target": has(("search ", "collect ")),
         "design_ref": "5/C16",
     },
@@ -162,7 +162,7 @@ PROPS = {
         "title": "Schema guard",
         "modules": ["Props.C17"],
         "quick": {"profiles": [("guard", 8, 20), ("async", 16, 2)]},
-        "thorough": {"profiles": [("guard", 16, 250), ("async", 16, 20)]},
+        "thorough": {"profiles": [("guard", 16, 500), ("async", 16, 40)]},
         "target": has(("reshape", "create ")),
         "design_ref": "5/C17",
     },
@@ -170,7 +170,7 @@ PROPS = {
         "title": "On-disk layout is stable and readable by other tools and versions",
         "modules": ["Props.C18"],
         "quick": {"profiles": [("layout", 8, 25)], "special": ["golden_corpus"]},
-        "thorough": {"profiles": [("layout", 16, 300)], "special": ["golden_corpus"]},
+        "thorough": {"profiles": [("layout", 16, 1200)], "special": ["golden_corpus"]},
         "target": has(("ls", "disk ")),
         "level_note": "naming rules and layout invariant proved on the model; format constants regenerated from the source and compared with the pinned table; "
                       "the golden corpus (32 directories written by the pinned release) is translation validation over a finite corpus",
@@ -180,7 +180,7 @@ PROPS = {
         "title": "Malformed files and arguments produce errors, never panics or hangs",
         "modules": ["Props.C19"],
         "quick": {"profiles": [("args", 8, 40)], "special": ["hostile_dirs"]},
-        "thorough": {"profiles": [("args", 16, 400)], "special": ["hostile_dirs"]},
+        "thorough": {"profiles": [("args", 16, 1600)], "special": ["hostile_dirs"]},
         "target": has_result("=> E:") ,
         "level_note": "search-argument outcomes proved on the model (every triple gives a documented error class or an exact result); "
                       "for damaged files the decoders are exercised, not modelled: the oracle is 'no panic, no hang, process survives'",
@@ -190,7 +190,7 @@ PROPS = {
         "title": "A search result is a snapshot",
         "modules": ["Props.C20"],
         "quick": {"profiles": [("snapshot", 8, 40)]},
-        "thorough": {"profiles": [("snapshot", 16, 500)]},
+        "thorough": {"profiles": [("snapshot", 16, 2000)]},
         "target": has(("collect ",)),
         "design_ref": "5/C20",
     },
